@@ -1608,6 +1608,9 @@ class Flatten(DomainMapping):
         self._path_ = self._child_._path_
 
     def _apply_mapping_(self, value: HashedValue) -> Iterable[HashedValue]:
+        if value.value is None:
+            # an optional collection that is missing has no elements
+            return
         for inner_v in value.value:
             yield HashedValue(inner_v)
 
